@@ -102,6 +102,7 @@ def build(tier, seed):
     for i, c in enumerate(p2c):
         cases.insert(i * (stride + 1), c)
     return {
+        'rule_more': "'extreme' cases: spectrum and dominant period of every short word at amplitudes 1e-170, 1e-160, 1e150, 1e160",
         'cases': cases,
         'rule': 'all non-zero words over {-1,0,2} of length 2..%d (one pool case per word) x dt in %s x {Signal, AccSignal} '
                 'x padding modes {default, p2_plus 1..3, n in {L, L+1, 2L, next odd > L+1}} x entry points {object lazy '
